@@ -180,7 +180,7 @@ theorem C13_abort_on_third_failure :
 
 def witnessChain : Nat → List RawLog := fun b => if b % 3 = 1 then [⟨b, 0, false⟩] else []
 
-theorem witnessChain_sorted : ChainSorted witnessChain := by
+theorem C13_witnessChain_sorted : ChainSorted witnessChain := by
   intro b; unfold witnessChain; split <;> simp
 
 /-- Design-phase witness 1 (start 10, follow 2, batch 5, logs every third block): head 20, connection dropped
@@ -188,7 +188,7 @@ theorem witnessChain_sorted : ChainSorted witnessChain := by
     delivered although head 30 was processed by a live, unharmed client. -/
 theorem C13_old_cursor_refuted : ¬ C13_statement oldQuiet oldOut := by
   intro h
-  have := (h ⟨witnessChain, 5, 2⟩ 10 [.head 20, .connDrop, .head 30] (by decide) witnessChain_sorted).2.2
+  have := (h ⟨witnessChain, 5, 2⟩ 10 [.head 20, .connDrop, .head 30] (by decide) C13_witnessChain_sorted).2.2
     [.head 20, .connDrop] 30 [] rfl (by decide) (by decide) 19 (by decide) (by decide) (by decide)
   revert this
   decide
